@@ -5,6 +5,7 @@ pub mod c04;
 pub mod c05;
 pub mod c06;
 pub mod c07;
+pub mod c08;
 pub mod c09;
 pub mod c10;
 pub mod c12;
@@ -29,6 +30,7 @@ pub const PROPS: &[Prop] = &[
     Prop { id: "C05", run: c05::run, replay: c05::replay },
     Prop { id: "C06", run: c06::run, replay: c06::replay },
     Prop { id: "C07", run: c07::run, replay: c07::replay },
+    Prop { id: "C08", run: c08::run, replay: c08::replay },
     Prop { id: "C09", run: c09::run, replay: c09::replay },
     Prop { id: "C10", run: c10::run, replay: c10::replay },
     Prop { id: "C12", run: c12::run, replay: c12::replay },
@@ -107,6 +109,28 @@ pub fn explore(args: &[String]) {
             }
         }
         Some("c09") => c09::explore(&args[1]),
+        Some("bc") => {
+            // qv explore bc <file>: dump functions, types and tuples of the compiled program
+            let src = std::fs::read_to_string(&args[1]).expect("read");
+            let reg = crate::qrun::registry();
+            match crate::qrun::compile(&src, &crate::qrun::Modules::new(), &reg) {
+                Ok(c) => {
+                    for (i, f) in c.program.get_functions().iter().enumerate() {
+                        println!("fn#{i} type={} captures={}", f.type_id, f.captures);
+                        for (k, ins) in f.instructions.iter().enumerate() {
+                            println!("    {k:3} {ins:?}");
+                        }
+                    }
+                    for (i, t) in c.program.get_types().iter().enumerate() {
+                        println!("type#{i} {t:?}  = {}", quiver_core::format::format_type(&c.program, t));
+                    }
+                    for (i, t) in c.program.get_tuples().iter().enumerate() {
+                        println!("tuple#{i} {t:?}");
+                    }
+                }
+                Err(e) => println!("COMPILE FAIL {e:?}"),
+            }
+        }
         Some("sim") => {
             // qv explore sim <file> [workers] [quantum]
             let src = std::fs::read_to_string(&args[1]).expect("read");
